@@ -7,6 +7,8 @@ package trie
 //@ define markerSame() = endMarker == old(endMarker) && endMarker.valid == old(endMarker.valid) && endMarker.leaf == old(endMarker.leaf) && endMarker.min == old(endMarker.min) && endMarker.max == old(endMarker.max) && forall(0, 256, func(k int) bool { return endMarker.children[k] == old(endMarker.children[k]) })
 //@ define minmaxOK(n) = forall(0, 256, func(k int) bool { return implies(n.children[k] != nil, n.min <= k && k <= n.max) })
 
+//@ define validKept() = forallv(func(p *Trie) bool { return implies(old(allocated(p)) && old(p.valid), p.valid) })
+
 //@ func NewTrie
 //@   fresh
 //@   ensures result != nil && minmaxOK(result) && !result.valid && !result.leaf
@@ -16,8 +18,10 @@ package trie
 //@   requires t != nil && allocated(t) && t != endMarker && markerOK() && minmaxOK(t)
 //@   modifies *
 //@   ensures  marker:: markerOK() && markerSame()
+//@   ensures  monotone:: validKept()
 //@   loop 1 invariant t != nil && allocated(t) && t != endMarker && markerOK() && markerSame()
 //@   loop 1 invariant 0 <= rangeint_iter && rangeint_iter < len(word)
+//@   loop 1 invariant validKept()
 //@   loop 1 decreases len(word) - rangeint_iter
 //@   loop 1 exit member:: t != nil && t.valid
 //@   property C20
